@@ -1721,7 +1721,7 @@ std::unique_ptr<core::Rule> NinjaBuildEngineDelegate::lookupRule(const core::Key
     }
   };
 
-  return std::unique_ptr<core::Rule>(new NinjaInputRule(node->getScreenPath(), context, node));
+  return std::unique_ptr<core::Rule>(new NinjaInputRule(key, context, node));
 }
 
 void NinjaBuildEngineDelegate::cycleDetected(
